@@ -283,3 +283,63 @@ func HarnessStableBolt() {
 }
 
 func init() { Harnesses["HarnessStableBolt"] = HarnessStableBolt }
+
+// HarnessMetaRecord (C08 isolation + C09 metadata record, production metadata
+// store): the real WAL over the real BoltMetaDB (on the engine's bbolt model)
+// and the in-memory VFS. Every metadata commit made by a log operation puts
+// exactly key "m" in bucket "wal-meta" (never the stable bucket); a stable Set
+// puts exactly its key in bucket "stable"; after Close and reopen (the JSON
+// record is decoded again) the log and the stable value are intact.
+func HarnessMetaRecord() {
+	dir := vrt.TempDir()
+	w := sym.NewWorld()
+	vfs := sym.NewFS(w)
+	open := func() (*wal.WAL, error) {
+		return wal.Open(dir, wal.WithSegmentFiler(segment.NewFiler(dir, vfs)), wal.WithSegmentSize(100))
+	}
+	l, err := open()
+	vrt.Assert("C09.meta-open-ok", err == nil)
+	if err != nil {
+		return
+	}
+	n0 := len(vrt.Events())
+	d := vrt.Bytes("d", 1)
+	for i := uint64(1); i <= 3; i++ {
+		vrt.Assert("C09.meta-append-ok", l.StoreLog(&raft.Log{Index: i, Term: 1, Data: d}) == nil)
+		vrt.Quiesce()
+	}
+	vrt.Assert("C09.meta-delete-ok", l.DeleteRange(1, 1) == nil)
+	logOnlyMeta, commits := true, 0
+	for _, e := range vrt.Events()[n0:] {
+		if e.Op == "bolt-commit" && e.OK {
+			commits++
+			logOnlyMeta = logOnlyMeta && e.Note == "[put:"+metadb.MetaBucket+"/"+metadb.MetaKey+"]"
+		}
+	}
+	vrt.Assert("C08.log-ops-commit-only-the-meta-record", logOnlyMeta)
+	vrt.Assert("C09.meta-record-written-on-rotation-and-truncation", commits >= 2 || !vrt.Symbolic())
+	n1 := len(vrt.Events())
+	vrt.Assert("C08.set-ok", l.SetUint64([]byte("term"), vrt.U64("term")) == nil)
+	stableOnly := true
+	for _, e := range vrt.Events()[n1:] {
+		if e.Op == "bolt-commit" && e.OK {
+			stableOnly = stableOnly && e.Note == "[put:"+metadb.StableBucket+"/term]"
+		}
+	}
+	vrt.Assert("C08.stable-ops-commit-only-the-stable-bucket", stableOnly)
+	vrt.Assert("C09.meta-close-ok", l.Close() == nil)
+	l, err = open()
+	vrt.Assert("C09.meta-reopen-ok", err == nil)
+	if err != nil {
+		return
+	}
+	first, _ := l.FirstIndex()
+	last, _ := l.LastIndex()
+	vrt.Assert("C09.meta-roundtrip-first-last", first == 2 && last == 3)
+	var out raft.Log
+	vrt.Assert("C09.meta-roundtrip-entry", l.GetLog(2, &out) == nil && bytes.Equal(out.Data, d))
+	l.Close()
+	vrt.Reach("meta-record-checked")
+}
+
+func init() { Harnesses["HarnessMetaRecord"] = HarnessMetaRecord }
